@@ -189,6 +189,52 @@ func r19b(c *an.Ctx) {
 				}
 			}
 		})
+		// what is handed out never shares storage with the buffer: every returned slice is freshly made (or nil/empty)
+		fresh := true
+		for _, ret := range an.Returns(fn) {
+			seenV := map[ssa.Value]bool{}
+			var walk func(v ssa.Value)
+			walk = func(v ssa.Value) {
+				if v == nil || seenV[v] {
+					return
+				}
+				seenV[v] = true
+				switch x := an.Strip(v).(type) {
+				case *ssa.Phi:
+					for _, e := range x.Edges {
+						walk(e)
+					}
+				case *ssa.MakeSlice, *ssa.Const:
+				case *ssa.Slice:
+					if al, isAl := x.X.(*ssa.Alloc); !isAl || bufField(x.X) {
+						_ = al
+						fresh = false
+					}
+				case *ssa.UnOp:
+					if bufField(x) {
+						fresh = false
+						return
+					}
+					// a named result kept in a cell: what was stored into it (nothing stored = nil)
+					if al, isAl := x.X.(*ssa.Alloc); isAl && al.Referrers() != nil {
+						for _, r := range *al.Referrers() {
+							if st, isSt := r.(*ssa.Store); isSt && st.Addr == ssa.Value(al) {
+								walk(st.Val)
+							}
+						}
+						return
+					}
+					fresh = false
+				default:
+					if bufField(v) {
+						fresh = false
+					}
+				}
+			}
+			walk(an.RetVal(ret, 0))
+		}
+		c.Ob("(*common/event.FifoBuffer).PopMultiple|result-is-a-copy", fn.Pos(), fresh,
+			"PopMultiple hands out a slice that shares its backing array with the buffer: the next Push overwrites an element of a batch the writing loop may still be sending (one event lost, another delivered twice)")
 		c.Ob("(*common/event.FifoBuffer).PopMultiple|pop-from-head-under-lock", fn.Pos(), copyFromHead && resliceFromN && locked,
 			"PopMultiple must copy from index 0 and drop exactly the popped prefix, under the buffer lock (copy-from-head=%v reslice=%v locked=%v)", copyFromHead, resliceFromN, locked)
 	}
